@@ -2,6 +2,7 @@ package vc
 
 import (
 	"fmt"
+	"go/types"
 	"strings"
 	"unicode"
 )
@@ -590,6 +591,7 @@ type Clause struct {
 	Text  string
 	Expr  *SNode
 	Line  string // file:line of the clause
+	Pkg   *types.Package // owning package of an axiom (nil: extern spec)
 }
 
 type Contract struct {
@@ -607,6 +609,8 @@ type Contract struct {
 	Extern   bool
 	Decreases *Clause          // termination measure (integer expression over the parameters)
 	DecreasesList []Clause     // lexicographic components
+	sitesSeen   map[string]bool
+	SiteAsserts map[string][]Clause // "<site class>#<ordinal>" -> assertions checked right before that instruction
 }
 
 type PureDef struct {
@@ -618,6 +622,7 @@ type PureDef struct {
 	// Recursive (rpred): an uninterpreted predicate over immutable structures whose
 	// one-level unfolding in the current state is asserted wherever it is mentioned
 	Recursive bool
+	Pkg       *types.Package // owning package (nil: extern spec)
 }
 
 type GhostDef struct {
@@ -670,6 +675,7 @@ type SpecFile struct {
 	Chans     []map[string]string
 	Dispatch  [][2]string
 	Axioms    []Clause
+	ChanInvs  []*ChanInv
 }
 
 // ParseSpecText parses the //@ lines of a contract file (or all lines of an
@@ -846,6 +852,24 @@ func ParseSpecText(path string, text string, raw bool) (*SpecFile, error) {
 			default:
 				return nil, fmt.Errorf("%s:%d: bad loop clause %q", path, l.no, w3)
 			}
+		case "site":
+			// site <class words>#<n> assert <expr>
+			if cur == nil {
+				return nil, fmt.Errorf("%s:%d: site outside of a contract", path, l.no)
+			}
+			i := strings.Index(rest, " assert ")
+			if i < 0 {
+				return nil, fmt.Errorf("%s:%d: bad site line (expected: site <class>#<n> assert <expr>)", path, l.no)
+			}
+			key := strings.TrimSpace(rest[:i])
+			c, err := mkClause(rest[i+8:], l.no)
+			if err != nil {
+				return nil, err
+			}
+			if cur.SiteAsserts == nil {
+				cur.SiteAsserts = map[string][]Clause{}
+			}
+			cur.SiteAsserts[key] = append(cur.SiteAsserts[key], c)
 		case "opt":
 			if cur == nil {
 				return nil, fmt.Errorf("%s:%d: opt outside of a contract", path, l.no)
@@ -975,6 +999,18 @@ func ParseSpecText(path string, text string, raw bool) (*SpecFile, error) {
 				lc.Args = append(lc.Args, e)
 			}
 			curLemma.Calls = append(curLemma.Calls, lc)
+		case "chaninv":
+			// chaninv T.field <expr over msg and self>
+			w, r2 := splitWord(rest)
+			parts := strings.Split(w, ".")
+			if len(parts) != 2 {
+				return nil, fmt.Errorf("%s:%d: bad chaninv head", path, l.no)
+			}
+			c, err := mkClause(r2, l.no)
+			if err != nil {
+				return nil, err
+			}
+			sf.ChanInvs = append(sf.ChanInvs, &ChanInv{Struct: parts[0], Field: parts[1], Clause: c})
 		case "axiom":
 			c, err := mkClause(rest, l.no)
 			if err != nil {
@@ -1088,4 +1124,31 @@ func parsePureDecl(s string, isPred bool) (*PureDef, error) {
 		pd.Body = e
 	}
 	return pd, nil
+}
+
+func (ct *Contract) siteSeen(k string) {
+	if ct.sitesSeen == nil {
+		ct.sitesSeen = map[string]bool{}
+	}
+	ct.sitesSeen[k] = true
+}
+
+// UnmatchedSites lists site keys of the contract that matched no instruction (a renamed
+// callee or a removed statement must not silently drop an assertion).
+func (ct *Contract) UnmatchedSites() []string {
+	var out []string
+	for k := range ct.SiteAsserts {
+		if !ct.sitesSeen[k] {
+			out = append(out, k)
+		}
+	}
+	return out
+}
+
+// ChanInv: every message sent on the channel stored in T.field satisfies Clause (over `msg`).
+type ChanInv struct {
+	Struct string
+	Field  string
+	Clause Clause
+	Pkg    *types.Package
 }
